@@ -89,6 +89,97 @@ pub fn connect_and_run(
     Ok(())
 }
 
+/// `connect_and_run` with a prologue that varies in ways no listed property depends on:
+/// bit 0: CONNACK says Session Present; bit 1: CONNACK carries unrelated properties (reason
+/// string, user properties, topic alias maximum, server keep alive, response information, assigned
+/// client identifier); bit 2: the CONNACK arrives through an AUTH exchange (connect -> AUTH ->
+/// authorize -> CONNACK); bit 3: the CONNACK's properties are written in reverse order; bit 4: the
+/// client's own CONNECT announces limits for the *inbound* direction (Receive Maximum 1, Maximum
+/// Packet Size 16 KiB, topic alias maximum, keep alive, will, credentials), which never limit what
+/// it may send.
+pub fn connect_and_run_v(w: &mut World, spec: ConnectSpec, connack: &rc::Connack, plan: &WritePlan, variant: u8) -> Result<(), String> {
+    if variant == 0 {
+        return connect_and_run(w, spec, connack, plan);
+    }
+    let mut spec = spec;
+    let mut connack = connack.clone();
+    if variant & 1 != 0 {
+        connack.session_present = true;
+    }
+    if variant & 2 != 0 {
+        connack.reason_string.get_or_insert("welcome".into());
+        connack.user_props.push(("server".into(), "mock".into()));
+        connack.topic_alias_maximum.get_or_insert(7);
+        connack.server_keep_alive.get_or_insert(30);
+        connack.response_information.get_or_insert("resp/info".into());
+        connack.assigned_client_id.get_or_insert("assigned-1".into());
+        connack.wildcard_available.get_or_insert(true);
+        connack.shared_available.get_or_insert(true);
+    }
+    if variant & 16 != 0 {
+        spec.receive_maximum.get_or_insert(1);
+        spec.maximum_packet_size.get_or_insert(16 * 1024);
+        spec.topic_alias_maximum.get_or_insert(3);
+        spec.keep_alive.get_or_insert(5);
+        spec.username.get_or_insert("user".into());
+        spec.password.get_or_insert(b"pw".to_vec());
+        if spec.will.is_none() {
+            spec.will = Some(WillSpec { topic: "will/t".into(), payload: b"gone".to_vec(), qos: Some(1), ..Default::default() });
+        }
+        spec.user_props.push(("client".into(), "harness".into()));
+    }
+    let form = if variant & 8 != 0 { rc::Form { order: (0u8..32).rev().collect(), short: false } } else { rc::Form::canonical() };
+    plan.install(w);
+    w.tick();
+    if variant & 4 != 0 {
+        spec.auth_method = Some("m".into());
+        spec.auth_data = Some(vec![1]);
+        connack.auth_method = Some("m".into());
+        if !w.start_connect(spec) {
+            return Err("harness: context not idle".into());
+        }
+        settle(w, plan, false);
+        w.tick();
+        w.reader.feed(rc::encode(
+            &rc::Packet::Auth(rc::Auth { reason: 0x18, method: Some("m".into()), data: Some(vec![2]), ..Default::default() }),
+            &rc::Form::canonical(),
+        ));
+        settle(w, plan, false);
+        if !matches!(w.conn_results.last(), Some(ConnRes::Auth(_))) {
+            return Err(format!("connect() prologue (extended authentication): expected AuthRsp, got {:?}; panics={:?}", w.conn_results.last(), w.panics));
+        }
+        w.tick();
+        if !w.start_authorize(AuthSpec { reason: Some(0x18), method: Some("m".into()), data: Some(vec![3]), user_props: vec![] }) {
+            return Err("harness: cannot start authorize()".into());
+        }
+        settle(w, plan, false);
+    } else {
+        if !w.start_connect(spec) {
+            return Err("harness: context not idle".into());
+        }
+        settle(w, plan, false);
+    }
+    w.tick();
+    w.reader.feed(rc::encode(&rc::Packet::Connack(connack), &form));
+    settle(w, plan, false);
+    match w.conn_results.last() {
+        Some(ConnRes::Connack(_)) => {}
+        other => return Err(format!("connect() prologue (variant {variant:#x}): expected ConnectRsp, got {other:?}; panics={:?}", w.panics)),
+    }
+    w.tick();
+    if !w.start_run() {
+        return Err("harness: cannot start run()".into());
+    }
+    settle(w, plan, false);
+    Ok(())
+}
+
+/// generator for the prologue variant: half of the cases use the plain prologue
+pub fn prologue_variant() -> proptest::strategy::BoxedStrategy<u8> {
+    use proptest::prelude::*;
+    prop_oneof![1 => Just(0u8), 1 => 0u8..32].boxed()
+}
+
 pub fn first_panic(w: &World) -> Option<String> {
     w.panics.first().map(|(who, m)| format!("panic in {who}: {m}"))
 }
